@@ -207,7 +207,9 @@ def _execute(record, root):
     if np.abs(np.array(r["final_E"]) - E[-1]).max() > 0 or np.abs(np.array(r["final_F"]) - F[-1]).max() > 0:
         failures.append(core.fail("stale-molecule-attributes", "molecule.Etot / molecule.force after run() are not those of the last evaluated geometry"))
     # ---- independence of batch mates --------------------------------------------------------------
-    if nmol > 1:
+    if nmol > 1 and not cfg.get("dm_fault"):
+        # (with a carried-density fault the batch and the solo run draw different noise tensors, so they differ at
+        # the fault's own level; that case has its own oracle below)
         m = record.get("solo", 0) % nmol
         # same start geometry: molecule m exactly as distorted/rotated in the batch, but alone and unpadded
         rs, err2, _ = _run({k: v for k, v in dict(cfg, only=m).items() if k != "pre_run"}, root, "solo")
